@@ -212,6 +212,18 @@ pub fn show<E: std::fmt::Debug + std::fmt::Display>(e: &E) -> String {
     format!("{e:?}")
 }
 
+/// Scratch directory for the few scenarios that need real files: `<verif>/.build/tmp` derived from
+/// the location of the running binary (`<verif>/.build/bin/flacmon-*`), else the system one.
+pub fn scratch_dir() -> std::path::PathBuf {
+    let d = std::env::current_exe()
+        .ok()
+        .and_then(|e| e.parent().and_then(|p| p.parent()).map(|p| p.join("tmp")))
+        .filter(|p| p.parent().map(|q| q.ends_with(".build")).unwrap_or(false))
+        .unwrap_or_else(|| std::env::temp_dir().join("flacmon-tmp"));
+    let _ = std::fs::create_dir_all(&d);
+    d
+}
+
 pub fn err_name(dbg: &str) -> String {
     let s = dbg.trim();
     if let Some(rest) = s.strip_prefix("Io(") {
